@@ -1086,6 +1086,21 @@ func (a *AMF) onULNASTransport(u *ue, plain []byte, what string) ([]dlMsg, strin
 		for i := 0; i < ch.NFlowDescs; i++ {
 			sp.QoSFlowDescs = append(sp.QoSFlowDescs, QoSFlowDescription(9+i, 9, ch.FlowParams)...)
 		}
+		if ch.LaterIEs > 0 {
+			// an SMF of Release 16: further optional IEs behind those of Release 15
+			k := u.idx + ch.LaterIEs
+			if k&1 != 0 {
+				sp.Rel16 = append(sp.Rel16, 0x17, 0x01, 0x01)
+			}
+			rate := [][]byte{{0x00, 0x29}, {0x22, 0xff}, {0x00, 0x64}}[k%3]
+			sp.Rel16 = append(sp.Rel16, 0x18, 0x02, rate[0], rate[1])
+			if k&2 != 0 {
+				sp.Rel16 = append(sp.Rel16, 0xC1)
+			}
+			if k&4 != 0 {
+				sp.Rel16 = append(sp.Rel16, 0x1F, 0x01, 0x00)
+			}
+		}
 		acc := BuildPDUSessionEstablishmentAccept(u.psi, u.pti, sp)
 		dl := u.protect(2, BuildDLNASTransport(1, acc, u.psi))
 		tr, err := a.buildSetupRequestTransfer(u)
